@@ -87,6 +87,8 @@ class KernelDen:
         self._deps_closure: dict[str, frozenset] = {}
         self._stack: list[str] = []
         self.redn_depth = 0
+        #: reduction variables whose bounds are read from input data (CSR)
+        self.data_dependent_vars: list = []
 
     # -- structure
     def shape_of(self, name):
@@ -213,6 +215,26 @@ class KernelDen:
         d.top(insn.expression, env)
         return env, box, sh
 
+    def is_data_dependent(self, t):
+        from .ptlib import contains_array_app
+        if contains_array_app(t, self.arrays):
+            return True
+        ids = {v.get_id() for v in self.data_dependent_vars}
+        seen, stack = set(), [t]
+        while stack:
+            x = stack.pop()
+            if x.get_id() in seen:
+                continue
+            seen.add(x.get_id())
+            if x.get_id() in ids:
+                return True
+            if z3.is_app(x):
+                if x.decl().kind() == z3.Z3_OP_UNINTERPRETED and \
+                        x.decl().name().startswith("T_"):
+                    return True
+                stack.extend(x.children())
+        return False
+
     def output(self, name, ivars):
         """Denotation of output argument *name* at *ivars* (z3 Ints)."""
         w = self.writer(name)
@@ -308,6 +330,8 @@ class _LpDen(Den):
                        else f"{iname}@{self.k.redn_depth}")
             rvars[iname] = v
             env2[iname] = v
+            if self._has_array_app(lo) or self._has_array_app(hi):
+                self.k.data_dependent_vars.append(v)
             bounds.append((iname, lo, hi))
         box = z3.And([z3.And(lo <= rvars[n], rvars[n] < hi)
                       for n, lo, hi in bounds])
